@@ -1,3 +1,3 @@
 From Coq Require Import ExtrOcamlBasic.
 From ChibiV Require Import Common.ExtractBase C03.Defs C03.Model C03.Spec.
-Extraction "model.ml" ext_base annotate compile_toplevel wf_program run_program eval_program lam_fv param_index rest_unused.
+Extraction "model.ml" ext_base annotate compile_toplevel wf_program run_program eval_program lam_fv param_index rest_unused rest_unused_p.
